@@ -25,7 +25,7 @@ def gen_case(rng):
         # four to seven base structures, most of them with exactly the same probability and a less probable one listed between them, one or two values per
         # variable: every N from 1 on is tried, also N below the number of base structures
         nb = rng.randint(4, 7)
-        spec = rulesets.gen_spec(rng, with_m=False, n_base=nb, max_len=2, min_groups=1, max_groups=2, max_per_group=2, pool='equal', dup_base=False)
+        spec = rulesets.gen_spec(rng, with_m=False, n_base=nb, max_len=2, min_groups=1, max_groups=1, max_per_group=2, pool='equal', dup_base=False)
         k = rng.randrange(1, len(spec['base']) - 1)
         tot = len(spec['base']) - 0.5
         spec['base'] = [[s_, (0.5 if i == k else 1.0) / tot] for i, (s_, p_) in enumerate(spec['base'])]
@@ -154,8 +154,12 @@ def check_case(run, case, tier='quick'):
                     open(session.session_files(sn)[0], 'w').write(sav)
                     if omn is not None:
                         open(session.session_files(sn)[1], 'wb').write(omn)
-                    r = session.run_main(['-r', name, '-s', sn, '--load', '-n', str(n)], max_guesses=len(Bref.guesses) + 1000)
+                    # flags repeated or contradicted on --load change nothing (they come from the save file) - and nothing about them belongs on standard output
+                    xf = rng.choice([[], [], ['--skip_brute'], ['--all_lower'], ['--skip_brute', '--all_lower']])
+                    r = session.run_main(['-r', name, '-s', sn, '--load', '-n', str(n)] + xf, max_guesses=len(Bref.guesses) + 1000)
                     run.ev('limit_runs'); run.ev('limit_on_resumed_session_runs')
+                    if r.stdout != '':
+                        run.violation(f'--load --limit {n} {xf}: the tool wrote to standard output outside the guess stream', case, observed=r.stdout[:200]); return
                     if r.guesses != Bref.guesses[:n]:
                         run.violation(f'--load --limit {n}: emitted {len(r.guesses)} guesses, expected the first {min(n, len(Bref.guesses))} of the resumed run '
                                       f'(the first session had emitted {len(A.guesses)})', case, observed=r.guesses[:5], expected=Bref.guesses[:n][:5]); return
